@@ -18,14 +18,14 @@ func createDynForDynamicSampler(c *config.DynamicSamplerConfig) dynsampler.Sampl
 	if maxKeys == 0 {
 		maxKeys = 500
 	}
-	clearFreq := c.ClearFrequency
+	clearFreq := dynsamplerInterval(c.ClearFrequency)
 	if clearFreq == 0 {
-		clearFreq = config.Duration(30 * time.Second)
+		clearFreq = 30 * time.Second
 	}
 
 	dynsamplerInstance := &dynsampler.AvgSampleRate{
 		GoalSampleRate:         int(c.SampleRate),
-		ClearFrequencyDuration: time.Duration(clearFreq),
+		ClearFrequencyDuration: clearFreq,
 		MaxKeys:                maxKeys,
 	}
 	dynsamplerInstance.Start()
